@@ -25,6 +25,16 @@ theorem ip_constructor_uses_pdu_from_flag (D P : Bytes) (ip0 : Ip.Ip4)
   rw [unfragmented_chain D P ip0 hparse hunf hlen]
   cases pduFromFlag ip0.protocol P <;> simp
 
+/-- the events `Ev.frag d p ttl` of the histories are wire fragments: bytes `W` that the `IP` constructor parses into a
+    fragmented header object with the fields of the specification's packet over the slice `[p.1, p.1 + p.2)` of the
+    payload parse, as a whole chain, into `IP / RawPDU(slice)` — libtins does not look into a fragment's payload — and
+    that chain is the packet `fragPkt d p ttl` the reassembly theorems speak about -/
+theorem fragment_on_wire {d : DG} (w : d.wf) {p : Nat × Nat} (hp : p ∈ d.pieces) {ttl : Nat} {W : Bytes} {f : Ip.Ip4}
+    (h : FragOnWire d p ttl W f) :
+    parseChain (W.length + 2) "IP" W = .ok [.ip (.ip f), .raw (slice d.payload p.1 p.2)] ∧
+    fragPkt d p ttl = { hasIP := true, hdr := absHdr f, inner := .raw (slice d.payload p.1 p.2) } :=
+  fragOnWire_chain w hp h
+
 /-- **reassembly_end_to_end.**  Let the datagram `d` lie on the wire as `D`, parsed by libtins into
     `IP(ip0) / layers` (`Wire.parseChain`, the proved model of the nested parsing constructors).  Cut its payload at any
     multiples of 8 (`d.lens`), let the fragments arrive in any order, with duplicates, interleaved with the fragments of
@@ -119,6 +129,12 @@ def exD : DG :=
 
 example : OnWire exD exWire exIp0 := ⟨rfl, rfl, by decide, by decide⟩
 example : Family [exD] := ⟨by decide, by decide⟩
+/-- the first fragment of `exD` on the wire (more-fragments set, total length 28, TTL 9) -/
+def exFragWire : Bytes :=
+  [0x45, 0, 0, 28, 0, 7, 0x60, 0, 9, 17, 0, 0, 10, 0, 0, 1, 10, 0, 0, 2, 0, 53, 0, 53, 0, 24, 0, 0]
+def exFragIp : Ip.Ip4 := Ip.Ip4.ofHeader (exFragWire.take 20)
+theorem exSlice : slice exD.payload 0 8 = [0, 53, 0, 53, 0, 24, 0, 0] := by decide
+example : FragOnWire exD (0, 8) 9 exFragWire exFragIp := ⟨by rw [exSlice]; rfl, by decide⟩
 /-- the original datagram parses into IP / UDP / RawPDU -/
 example : ∃ layers, parseChain (exWire.length + 2) "IP" exWire = .ok (.ip (.ip exIp0) :: layers) ∧ layers.length = 2 :=
   ⟨_, rfl, rfl⟩
